@@ -99,6 +99,15 @@ pub fn zoo(rng: &mut Rng, c: &str, other: &str, oc: &str, lng: bool) -> String {
   m(&mut members, format!("  method {}(): Str = {oc}.{}().{}(\"text\") :: \"a string literal that is long enough\"", id("chain"), id("staticMember"), id("instanceMember")));
   // comments of every kind
   m(&mut members, format!("  /** documentation comment that is longer than fifteen bytes */\n  function {}(): unit = {{ /* block comment that is long enough */ }} // trailing line comment, long", id("documented")));
+  // constructs with a type error (never a syntax error) whose identifiers occur nowhere else:
+  // surplus sub-patterns, unknown and duplicate fields, surplus arguments, unresolved names
+  let (pe, e1, e2) = (id("arg"), id("surplusBinder"), id("keptBinder"));
+  m(&mut members, format!("  function {}({pe}: {en}): int = match {pe} {{ {vb}({e2}, {e1}) -> 1, {va}({}) -> 2, _ -> 3 }}", id("wrongArity"), id("binderOnNullary")));
+  let (pf, e3) = (id("arg"), id("renamedUnknown"));
+  m(&mut members, format!("  function {}({pf}: {st}): int = {{ let {{ {f1}, {} as {e3}, {f1} as {} }} = {pf}; 4 }}", id("wrongFields"), id("unknownField"), id("duplicateField")));
+  m(&mut members, format!("  function {}(): int = {c}.{genf}(1, 2, {}, {}) + {}", id("wrongCall"), id("unresolvedArgument"), id("anotherUnresolved"), id("unresolvedOperand")));
+  let (pg, e4, e5) = (id("arg"), id("tupleSurplus"), id("tupleKept"));
+  m(&mut members, format!("  function {}({pg}: Pair<int, Str>): int = {{ let ({e5}, _, {e4}) = {pg}; 5 }}", id("wrongTuple")));
   rng.shuffle(&mut members);
   let keep = 4 + rng.below(members.len() - 3);
   members.truncate(keep);
@@ -131,11 +140,20 @@ pub fn content(rng: &mut Rng, me: &str, others: &[&str], lng: bool) -> String {
   let iface_only = long("declaredOnlyByTheInterface", lng);
   // declarations often carry documentation
   let doc = if rng.chance(1, 3) { "/** documentation comment of the declaration, long enough */\n" } else { "" };
-  let text = match rng.below(24) {
+  let text = match rng.below(27) {
     16..=20 => zoo(rng, &c, other, &oc, lng),
     // caller of a member that other's interface declares
     21 | 22 => format!("{}class {c} {{\n  function {g}({p}: {oc}): int = {p}.{iface_only}() + {p}.{f}()\n}}\n", imp(&oc, other)),
     23 => format!("{}interface {c} : {oc} {{\n  method {iface_only}(): int\n}}\n", imp(&oc, other)),
+    // an interface whose super type is a class of the same module (reported when an implementer in
+    // ANOTHER module is checked), next to an error of its own
+    24 => format!("class {c}Base {{ function {g}(): int = \"a string where an int is expected\" }}\ninterface {c} : {c}Base {{\n  method {f}(): int\n}}\n"),
+    // importer of two modules: implements other's interface and calls into a second module
+    25 | 26 => {
+      let other2 = *rng.pick(others);
+      let oc2 = class_of(other2, lng);
+      format!("{}{}class {c} : {oc} {{\n  method {f}(): int = {oc2}.{f}() + 9\n}}\n", imp(&oc, other), if other2 != other { imp(&oc2, other2) } else { String::new() })
+    }
     // exporter with member f returning int
     0 => format!("class {c} {{\n  function {f}(): int = 1\n  function {g}({p}: int, {q}: Str): int = {p}\n}}\n"),
     // exporter where f is missing / has another type
